@@ -98,13 +98,13 @@ var poolNames = []string{
 	"t-empty", "t-ints", "t-nested-deep", "d-empty", "d-str", "d-int", "d-cyclic", "d-frozen", "d-iterating",
 	"set-ints", "set-frozen", "range-small", "range-huge", "range-neg", "struct", "struct-cyclic", "fn-lambda", "fn-fails", "fn-recursive", "builtin-len", "bound-append",
 	"time", "duration", "module-json",
-	"iter-codepoints", "iter-elems", "iter-bytes-elems", "iter-ords", "iter-empty", "d-keys-view", "l-one", "s-digits", "t-mixed",
+	"iter-codepoints", "iter-elems", "iter-bytes-elems", "iter-ords", "iter-empty", "d-keys-view", "l-one", "s-digits", "t-mixed", "s-zeros",
 }
 
 var corePool = func() map[string]bool {
 	m := map[string]bool{}
 	for _, n := range []string{"none", "true", "i0", "i1", "i-1", "i2^31", "i2^63", "i-2^63", "i2^64", "f0", "f0.5", "fnan", "finf", "f-inf", "f2^53",
-		"s-a", "s-percent", "b-all", "l-ints", "t-ints", "d-str", "set-ints", "range-small", "range-huge"} {
+		"s-a", "s-percent", "s-zeros", "b-all", "l-ints", "t-ints", "d-str", "set-ints", "range-small", "range-huge"} {
 		m[n] = true
 	}
 	return m
@@ -175,6 +175,8 @@ func poolValue(name string) starlark.Value {
 		return big("float('-inf')")
 	case "f2^53":
 		return starlark.Float(1 << 53)
+	case "s-zeros":
+		return starlark.String("00")
 	case "s-empty":
 		return starlark.String("")
 	case "s-a":
